@@ -42,7 +42,7 @@ def post_cond(ri, rs, Xs, sc, den, P, q_before=None):
     return z3.And(rs == sc, z3.Or(exact, approx))
 
 
-def run_base(den, Kd, P, snapshots):
+def run_base(den, Kd, P, snapshots, Lmin=0):
     x, s0 = z3.Ints('x s0')
 
     def run(m):
@@ -52,6 +52,8 @@ def run_base(den, Kd, P, snapshots):
         m.cut = ('impl_division', head)
         K.DIGITS_MAX[0] = Kd + 3
         m.assume(z3.And(s0 >= -C.SCALE_BOUND, s0 <= C.SCALE_BOUND, x > 0, x < 10 ** Kd))
+        if Lmin:
+            m.assume(x >= 10 ** (Lmin - 1))          # only the long numerators of this task
         try:
             r = m.call('impl_division', [x, Ref([den], 0), s0, P], ['num_bigint::BigInt', '&num_bigint::BigInt', 'i64', 'u64'], 'BigDecimal')
         except E.CutReached as c:
@@ -328,7 +330,7 @@ def worker(t):
         if k == 'induction':
             den, Kd, P = t['den'], t['K'], t['P']
             snaps = set()
-            out = [H.explore_task(prog, run_base(den, Kd, P, snaps), task=dict(t, phase='base'), loop_bound=Kd + 400, timeout_ms=60000, deadline_s=600)]
+            out = [H.explore_task(prog, run_base(den, Kd, P, snaps, t.get('Lmin', 0)), task=dict(t, phase='base'), loop_bound=Kd + 400, timeout_ms=60000, deadline_s=600)]
             if not snaps:
                 snaps = set()
             for snap in sorted(snaps):
@@ -499,6 +501,12 @@ def main(tier):
     # P+1, P+2, P+19 digits already; concrete widths so that any further handling of the result is executed, not cut off
     for t in tasks[:: (10 if tier == 'quick' else 4)] + [t for t in tasks if t['den'] in (3, 7, 10 ** 19 + 1, 2 ** 64 + 1)]:
         t['over'] = [P + 1, P + 2, P + 19]
+    # numerators much longer than the precision window (more than P + digits(den) + 1 digits): the first quotient is
+    # already over-long, nothing may be dropped from the numerator before it is divided
+    for d in ([3, 7, 11, 999] if tier == 'quick' else [3, 6, 7, 9, 11, 13, 97, 999, 10 ** 19 + 1]):
+        dd = len(str(d))
+        for L in (P + dd + 1, P + dd + 2, P + dd + 3, P + dd + 20):
+            tasks.append({'kind': 'induction', 'den': d, 'K': L, 'P': P, 'Lmin': L, 'long': True})
     for d in [3, -3, 7, -8, 10 ** 20 + 3, -(2 ** 70)]:
         tasks.append({'kind': 'signs', 'den': d, 'P': P})
     ovs = div_overloads(prog)
